@@ -64,6 +64,10 @@ class TLCResult:
         self.violated += re.findall(r"Error: Action property (\w+) is violated", out)
         if re.search(r"Error: Temporal properties were violated", out):
             self.violated.append("temporal")
+        # a property of an instantiated module (refinement: PROPERTY MW!Spec) is reported by position, not by name
+        self.violated += ["refinement:" + m for m in re.findall(r"Error: Action property line \d+, col \d+ to line \d+, col \d+ of module (\w+) is violated", out)]
+        if "Error: Deadlock reached." in out:
+            self.violated.append("deadlock")
         self.post_failed = bool(re.search(r"POSTCONDITION|Post-?condition .* (violated|false)", out)) and "Error" in out
         self.no_error = "Model checking completed. No error has been found." in out
         # per-action counts printed with -coverage: <Name line .. of module M>: distinct:generated
@@ -72,7 +76,7 @@ class TLCResult:
             self.actions[m2.group(1)] = max(self.actions.get(m2.group(1), 0), int(m2.group(4)))
         self.other_errors = [
             ln for ln in out.splitlines()
-            if ln.startswith("Error:") and "is violated" not in ln and "Temporal properties" not in ln
+            if ln.startswith("Error:") and "is violated" not in ln and "Temporal properties" not in ln and "Deadlock reached" not in ln
         ]
 
     def printed(self, tag):
